@@ -12,15 +12,26 @@ Closed == {Lx("t", <<"HTML">>), Lx("{{ 1 }}", <<"LBRACES", "INT", "RBRACES">>), 
            Lx("@else", <<"ELSE">>), Lx("@end", <<"END">>), Lx("@each(v in [1])", <<"EACH", "LPAREN", "IDENT", "IN", "LBRACKET", "INT", "RBRACKET", "RPAREN">>),
            Lx("@insert(\"a\")", <<"INSERT", "LPAREN", "STR", "RPAREN">>), Lx("@insert(\"a\", 1)", <<"INSERT", "LPAREN", "STR", "COMMA", "INT", "RPAREN">>),
            Lx("@component(\"c\")", <<"COMPONENT", "LPAREN", "STR", "RPAREN">>), Lx("@slot", <<"SLOT">>), Lx("@slot(\"s\")", <<"SLOT", "LPAREN", "STR", "RPAREN">>),
+           Lx("@for(i = 0; i; i + 1)", <<"FOR", "LPAREN", "IDENT", "ASSIGN", "INT", "SEMI", "IDENT", "SEMI", "IDENT", "ADD", "INT", "RPAREN">>),
+           Lx("@for(;;)", <<"FOR", "LPAREN", "SEMI", "SEMI", "RPAREN">>), Lx("@for(x;)", <<"FOR", "LPAREN", "IDENT", "SEMI", "RPAREN">>),
+           Lx("@breakIf(x)", <<"BREAK_IF", "LPAREN", "IDENT", "RPAREN">>), Lx("@continueIf(1 + x)", <<"CONTINUE_IF", "LPAREN", "INT", "ADD", "IDENT", "RPAREN">>),
+           Lx("@break", <<"BREAK">>), Lx("@reserve(\"r\")", <<"RESERVE", "LPAREN", "STR", "RPAREN">>), Lx("@use(\"l\")", <<"USE", "LPAREN", "STR", "RPAREN">>),
+           Lx("@dump(1, x)", <<"DUMP", "LPAREN", "INT", "COMMA", "IDENT", "RPAREN">>), Lx("@dump()", <<"DUMP", "LPAREN", "RPAREN">>),
+           Lx("{{ x = 1 }}", <<"LBRACES", "IDENT", "ASSIGN", "INT", "RBRACES">>), Lx("{{ x = 1; x }}", <<"LBRACES", "IDENT", "ASSIGN", "INT", "SEMI", "IDENT", "RBRACES">>),
+           Lx("{{ x = }}", <<"LBRACES", "IDENT", "ASSIGN", "RBRACES">>), Lx("{{ 1; ; 2 }}", <<"LBRACES", "INT", "SEMI", "SEMI", "INT", "RBRACES">>),
            Lx("{{ }}", <<"LBRACES", "RBRACES">>), Lx("{{ 1 + }}", <<"LBRACES", "INT", "ADD", "RBRACES">>), Lx("{{ {a: 1 2} }}", <<"LBRACES", "LBRACE", "IDENT", "COLON", "INT", "INT", "RBRACE", "RBRACES">>),
            Lx("{{ (1 }}", <<"LBRACES", "LPAREN", "INT", "RBRACES">>), Lx("{{ {a: 1,} }}", <<"LBRACES", "LBRACE", "IDENT", "COLON", "INT", "COMMA", "RBRACE", "RBRACES">>)}
-Small == {l \in Closed : l.src \in {"t", "{{ 1 }}", "@if(x)", "@elseif(1)", "@else", "@end", "@each(v in [1])", "@insert(\"a\")", "@component(\"c\")", "@slot", "{{ {a: 1 2} }}"}}
+Small == {l \in Closed : l.src \in {"t", "{{ 1 }}", "@if(x)", "@elseif(1)", "@else", "@end", "@each(v in [1])", "@insert(\"a\")", "@component(\"c\")", "@slot", "{{ {a: 1 2} }}",
+                                     "@for(i = 0; i; i + 1)", "@breakIf(x)", "{{ x = 1; x }}"}}
 \* constructs cut in the middle: the lexer is left in code mode (incode), or a string / comment is unterminated (ILLEGAL)
 Open == {Lx("{{ 1", <<"LBRACES", "INT">>), Lx("{{", <<"LBRACES">>), Lx("{{ {a: 1", <<"LBRACES", "LBRACE", "IDENT", "COLON", "INT">>),
          Lx("{{ {a: 1,", <<"LBRACES", "LBRACE", "IDENT", "COLON", "INT", "COMMA">>), Lx("{{ {a", <<"LBRACES", "LBRACE", "IDENT">>), Lx("{{ [1,", <<"LBRACES", "LBRACKET", "INT", "COMMA">>),
          Lx("{{ 1 +", <<"LBRACES", "INT", "ADD">>), Lx("@if(x", <<"IF", "LPAREN", "IDENT">>), Lx("@if(", <<"IF", "LPAREN">>), Lx("@if", <<"IF">>),
          Lx("@each(v in", <<"EACH", "LPAREN", "IDENT", "IN">>), Lx("@insert(\"a\"", <<"INSERT", "LPAREN", "STR">>), Lx("@insert(\"a\", 1", <<"INSERT", "LPAREN", "STR", "COMMA", "INT">>),
          Lx("@component(\"c\", {a: 1", <<"COMPONENT", "LPAREN", "STR", "COMMA", "LBRACE", "IDENT", "COLON", "INT">>), Lx("@slot(\"s\"", <<"SLOT", "LPAREN", "STR">>),
+         Lx("@for(i = 0; i", <<"FOR", "LPAREN", "IDENT", "ASSIGN", "INT", "SEMI", "IDENT">>), Lx("@for(", <<"FOR", "LPAREN">>), Lx("@for(;", <<"FOR", "LPAREN", "SEMI">>),
+         Lx("@breakIf(x", <<"BREAK_IF", "LPAREN", "IDENT">>), Lx("@dump(1,", <<"DUMP", "LPAREN", "INT", "COMMA">>), Lx("@reserve(\"r\"", <<"RESERVE", "LPAREN", "STR">>),
+         Lx("{{ x =", <<"LBRACES", "IDENT", "ASSIGN">>), Lx("{{ x = 1;", <<"LBRACES", "IDENT", "ASSIGN", "INT", "SEMI">>),
          Lx("{{ \"abc", <<"LBRACES", "ILLEGAL">>), Lx("{{-- c", <<"ILLEGAL">>), Lx("{{ ~ }}", <<"LBRACES", "ILLEGAL", "RBRACES">>)}
 InCodeAfter(l) == l.ts[Len(l.ts)] # "ILLEGAL" /\ l.src # "{{ ~ }}"
 
@@ -32,7 +43,7 @@ RECURSIVE CatToks(_)
 CatToks(ls) == IF ls = <<>> THEN <<>> ELSE ls[1].ts \o CatToks(Tail(ls))
 Count(ts, T) == Len(SelectSeq(ts, LAMBDA t : t \in T))
 \* more block openers than @end: some block is not closed
-Unclosed(ts) == Count(ts, {"IF", "EACH"}) > Count(ts, {"END"})
+Unclosed(ts) == Count(ts, {"IF", "EACH", "FOR"}) > Count(ts, {"END"})
 Base == IF LexSet = "small" THEN Small ELSE Closed
 MCInputs == {[toks |-> CatToks(q), incode |-> FALSE, open |-> Unclosed(CatToks(q)), src |-> CatSrc(q)] : q \in SeqsUpTo(Base, MaxLex)}
        \cup {[toks |-> CatToks(q) \o o.ts, incode |-> InCodeAfter(o), open |-> TRUE, src |-> CatSrc(q) \o o.src] :
